@@ -42,18 +42,21 @@ SeqAllowed(e) ==
   /\ e.op = "with_encryption" => b.enc # e.cipher /\ LastOp.op \notin {"with_encryption", "without_encryption"}
   /\ e.op = "build" => ~Cfg(LastOp)
 
-PayOps ==
+PayCfg ==
   {[op |-> "with_compression", mode |-> m] : m \in {"Z", "4", "E", "F"}} \cup
   {[op |-> "with_chunk_size", n |-> CSmall, checked |-> FALSE],
    [op |-> "with_chunk_size", n |-> 1024, checked |-> TRUE],
    [op |-> "with_chunk_size", n |-> 512, checked |-> TRUE]} \cup
-  {[op |-> "with_encryption", cipher |-> c] : c \in Ciphers \cup {"X"}} \cup
+  {[op |-> "with_encryption", cipher |-> c] : c \in Ciphers \cup {"X"}}
+PayAdds ==
   {[op |-> "add_data", len |-> p[1], fb |-> p[2]] : p \in Payloads} \cup
   {[op |-> "add_mixed_data", len |-> p[1], fb |-> p[2], cipher |-> c] : p \in Payloads, c \in Ciphers \cup {"-"}} \cup
   {[op |-> "add_encrypted_data", len |-> p[1], fb |-> p[2], cipher |-> c, idx |-> i] : p \in Payloads, c \in Ciphers, i \in 0..1} \cup
-  {[op |-> "add_chunk", len |-> p[1], fb |-> p[2], mode |-> m, kind |-> k] : p \in Payloads, m \in DataModes, k \in {"new", "parsed"}} \cup
-  \* BlteFile::compress(data, chunk_size, mode): the one-call encoder (a whole program by itself)
+  {[op |-> "add_chunk", len |-> p[1], fb |-> p[2], mode |-> m, kind |-> k] : p \in Payloads, m \in DataModes, k \in {"new", "parsed"}}
+\* BlteFile::compress(data, chunk_size, mode): the one-call encoder (a whole program by itself)
+PayCompress ==
   {[op |-> "compress", len |-> p[1], fb |-> p[2], mode |-> m, n |-> c] : p \in Payloads, m \in DataModes \cup {"E", "F"}, c \in {CSmall, DefaultCS}}
+SecondAdd == [op |-> "add_data", len |-> 2, fb |-> "x"]      \* the optional second add
 
 Rank(e) == CASE e.op = "-" -> 0
              [] e.op = "with_compression" -> 1
@@ -62,24 +65,25 @@ Rank(e) == CASE e.op = "-" -> 0
              [] OTHER -> 4
 NAdds == Cardinality({i \in 1..Len(hist) : IsAdd(hist[i])})
 HasOp(o) == \E i \in 1..Len(hist) : hist[i].op = o
-PayAllowed(e) ==
-  /\ e.op = "compress" => hist = <<>>
-  /\ Cfg(e) => Rank(e) > Rank(LastOp)
-  /\ IsAdd(e) /\ NAdds = 0 =>
-       /\ e.op # "add_data" => ~HasOp("with_encryption")                 \* builder-level encryption only matters to add_data
-       /\ e.op = "add_chunk" => ~HasOp("with_compression")
-  /\ IsAdd(e) /\ NAdds = 1 => e = [op |-> "add_data", len |-> 2, fb |-> "x"]   \* the optional second add
-  /\ IsAdd(e) => NAdds <= 1
-  /\ e.op = "build" => NAdds >= 1 /\ (e.table = "ext" => NAdds = 1)
+\* the calls that extend the current program (canonical order: compression, chunk size, encryption, add, [add])
+PayNow ==
+  LET na   == NAdds
+      henc == HasOp("with_encryption")     \* builder-level encryption only matters to add_data
+      hcmp == HasOp("with_compression")    \* add_chunk brings its own mode
+      r    == Rank(LastOp)
+      more == Len(hist) < D
+  IN IF na = 0
+     THEN IF ~more THEN {}
+          ELSE {e \in PayCfg : Rank(e) > r} \cup (IF hist = <<>> THEN PayCompress ELSE {}) \cup
+               {e \in PayAdds : (e.op # "add_data" => ~henc) /\ (e.op = "add_chunk" => ~hcmp)}
+     ELSE IF na = 1
+     THEN (IF more THEN {SecondAdd} ELSE {}) \cup {[op |-> "build", table |-> t] : t \in {"std", "ext"}}
+     ELSE {[op |-> "build", table |-> "std"]}
 
-Builds == IF Family = "seq" THEN {[op |-> "build", table |-> "std"]}
-          ELSE {[op |-> "build", table |-> t] : t \in {"std", "ext"}}
-Ops == (IF Family = "seq" THEN SeqOps ELSE PayOps \cup {[op |-> "add_data", len |-> 2, fb |-> "x"]}) \cup Builds
-Allowed(e) == /\ e.op # "build" => Len(hist) < D
-              /\ IF Family = "seq" THEN SeqAllowed(e) ELSE PayAllowed(e)
+SeqNow == {e \in SeqOps \cup {[op |-> "build", table |-> "std"]} : (e.op # "build" => Len(hist) < D) /\ SeqAllowed(e)}
 
 MCInit == Init /\ hist = <<>>
-MCNext == \E e \in Ops : Allowed(e) /\ Do(e) /\ hist' = Append(hist, e)
+MCNext == \E e \in (IF Family = "seq" THEN SeqNow ELSE PayNow) : Do(e) /\ hist' = Append(hist, e)
 
 \* ---- the design's properties ---------------------------------------------------------------------------
 IdentityInv == phase = "built" => Identity(b)
